@@ -40,6 +40,7 @@ type evictOpts struct {
 	pendingCpu              float64            // > 0: the pending job's request (overrides the shared one)
 	slackCpu, spareCpu      float64            // > 0: concrete free cpu on n0 / concrete cpu of n1 (instead of symbolic)
 	elasticAtMinimum        bool               // victim v0 has one running and one pending pod, minimum 1 (it runs at its minimum size)
+	fixedFS                 map[string]float64 // fair shares of an earlier cycle of the same cluster
 	milliCpu                map[string]float64 // GPU worlds: milli-cpu of the named jobs (default 100)
 	symVictimStatus         bool               // every victim pod's status is Running, Bound or Binding (all occupy their node)
 	signatures              bool               // scheduling signatures on (failed jobs' shape prunes later identical ones)
@@ -65,7 +66,7 @@ func hoursOrNil(name string, on bool) *int64 {
 }
 
 func actEvictWorld(o evictOpts) *evictWorld {
-	w := &actWorld{vm: resource_info.NewResourceVectorMap(), gpuDim: o.gpuDim, milliCpu: o.milliCpu}
+	w := &actWorld{vm: resource_info.NewResourceVectorMap(), gpuDim: o.gpuDim, milliCpu: o.milliCpu, fixedFS: o.fixedFS}
 	minReq := 10.0
 	if o.gpuDim {
 		minReq = 1
@@ -543,6 +544,34 @@ func VerifC07_StrictReclaimWithSpareNode() {
 	reclaim.New().Execute(w.ssn)
 	w.observe()
 	w.assertReclaimFair()
+}
+
+// VerifC15_TwoCyclesNoPingPong: two consecutive cycles of the real reclaim action on the same
+// cluster. Cycle 1: the pending job of qa takes the node from the running job of qb. Cycle 2 is the
+// snapshot that follows: the evicted workload is pending again in qb, the reclaimer runs in qa;
+// quotas are the same, and so are the fair shares (every queue requests exactly what it did: the
+// division is a function of capacity, quotas, weights and requests). The evicted workload must not
+// take the node back - the length-2 eviction cycle at action level.
+// BOUND: 1 full node; d <- qa, qb, qc; both workloads preemptible single pods of 16 milli-cpu, equal priority; deserved quotas and fair shares symbolic below 2^6, identical in both cycles; no min-runtime, no time-based fairness (k = 0)
+func VerifC15_TwoCyclesNoPingPong() {
+	o := evictOpts{bits: 6, nVictims: 1, victimQ: []string{"qb"}, pendingQ: "qa", sameCpu: true, fixedCpu: 16, fixedPreemptibleVictims: true, fixedPending: true}
+	w1 := actEvictWorld(o)
+	reclaim.New().Execute(w1.ssn)
+	vr.Observe("cycle1.evicts", len(w1.cache.evicts))
+	if !(len(w1.cache.evicts) == 1 && w1.placed(w1.pending)) {
+		vr.Stop()
+	}
+	o.victimQ, o.pendingQ = []string{"qa"}, "qb"
+	o.leafQuota = map[string]float64{}
+	for _, q := range []string{"qa", "qb", "qc"} {
+		o.leafQuota[q] = w1.queueOf(q).deserved
+	}
+	o.fixedFS = w1.fs
+	w2 := actEvictWorld(o)
+	reclaim.New().Execute(w2.ssn)
+	vr.Observe("cycle2.evicts", len(w2.cache.evicts))
+	vr.Cover(true, "C15.cover.second-cycle-reached")
+	vr.Assert(len(w2.cache.evicts) == 0, "C15.evicted-workload-does-not-take-its-place-back-in-the-next-cycle")
 }
 
 // VerifC15_StrictReclaimNeedsAReason: the same world as the mechanism of C15: an eviction that no
